@@ -882,11 +882,13 @@ func (g *FunctionGenerator[V]) GenerateFunc(ast parser2.AST, gc GeneratorContext
 		if err != nil {
 			return nil, false, err
 		}
+		letIdx, _ := newGc.am.get(a.Name)
 		return func(st Stack[V], cs []V) (V, error) {
 			va, err := valFunc(st, cs)
 			if err != nil {
 				return zero, a.EnhanceErrorf(err, "error in let")
 			}
+			verifLetBind(a.Name, letIdx, st.Size())
 			st.Push(va)
 			return mainFunc(st, cs)
 		}, pure && mainPure, nil
